@@ -16,7 +16,7 @@ theorem jsMethod_rel (hs : List Spec.Name) (hret : hs.contains (S "return") = fa
   obtain ⟨⟨⟨hname, _⟩, _⟩, hbody⟩ := hok
   obtain ⟨ns, p, q, hst, hemb⟩ := hr.stmts
   have hnew' : ¬ (h.name = "new".toList ∧ (!true) = true) := fun e => by simp at e
-  have hb := jsStmts_emb hs hret h.body hbody ns hemb 2
+  have hb := js_trees hs hret h.body hbody ns hemb 2
   have hj := jsParams_rel f h.params hr.params true
   simp only [if_true] at hj
   unfold jsMethod
@@ -51,7 +51,7 @@ theorem jsMethods_rel (hs : List Spec.Name) (hret : hs.contains (S "return") = f
 theorem txFunc_wrapper (name : Spec.Name) :
     txFunc (wrapperFunc name) =
       S "function " ++ name ++ S "(obj, ...args) {\n" ++ indentOf 1 ++ S "return obj." ++ name ++ S "(...args);\n" ++ S "}\n" := by
-  simp [txFunc, wrapperFunc, txFuncBody, varCount, txBody, txS, txJ, txArgs, jid, JE.needsParen, S, List.append_assoc]
+  simp [txFunc, wrapperFunc, txFuncBody, varCount, txBody, txT, txS, txJ, txArgs, jid, JE.needsParen, S, List.append_assoc]
 
 /-- the wrapper functions, in handler order, `birth` skipped -/
 theorem wrappers_rel (hs : List Spec.Name) : ∀ (hl : List Handler) (fs : List FuncDef), Rel2 (FuncRelJ hs) hl fs →
@@ -180,16 +180,34 @@ theorem lexOKF_wrapper (name : Spec.Name) (hk : jsIdLex name = true) : LexOKF (w
   · exact ⟨(by decide : jsIdLex "obj".toList = true), (by decide : jsIdLex "args".toList = true), trivial⟩
   · exact ⟨⟨⟨(by decide : jsIdLex "obj".toList = true), hk⟩, (by decide : jsIdLex "args".toList = true), trivial⟩, trivial⟩
 
-theorem hasWith_false (s : JS) (h : ReadOKS s) : s.hasWith = false := by
-  cases s <;> first | rfl | exact absurd h (by simp [ReadOKS])
-
+mutual
+theorem hasWith_false : ∀ (s : JS), ReadOKS s → s.hasWith = false
+  | .ifs c t e, h => by
+    simp only [ReadOKS] at h
+    simp [JS.hasWith, hasWithL_false t h.2.1, hasWithL_false e h.2.2]
+  | .while c b, h => by
+    simp only [ReadOKS] at h
+    simp [JS.hasWith, hasWithL_false b h.2]
+  | .for3 v a c d b, h => by
+    simp only [ReadOKS] at h
+    simp [JS.hasWith, hasWithL_false b h.2.2.2]
+  | .expr _, _ => rfl
+  | .assign _ _, _ => rfl
+  | .ret _, _ => rfl
+  | .var _, _ => rfl
+  | .brk, _ => rfl
+  | .forOf _ _ _, h => absurd h (by simp [ReadOKS])
+  | .with _ _, h => absurd h (by simp [ReadOKS])
 theorem hasWithL_false : ∀ (b : List JS), ReadOKSs b → JS.hasWithL b = false
   | [], _ => rfl
-  | s :: ss, h => by simp [JS.hasWithL, hasWith_false s h.1, hasWithL_false ss h.2]
+  | s :: ss, h => by
+    simp only [ReadOKSs] at h
+    simp [JS.hasWithL, hasWith_false s h.1, hasWithL_false ss h.2]
+end
 
 theorem prMethod_length (f : JFunc) : 1 ≤ (prMethod f).length := by simp [prMethod]
 
-theorem jMethods_pr (F : Nat) : ∀ (ms : List JFunc), (∀ m ∈ ms, ReadOKF m ∧ m.body.length + 2 ≤ F) → ∀ (r : List JTok) (k : Nat),
+theorem jMethods_pr (F : Nat) : ∀ (ms : List JFunc), (∀ m ∈ ms, ReadOKF m ∧ ssW m.body + 2 ≤ F) → ∀ (r : List JTok) (k : Nat),
     ms.length + 1 ≤ k → jMethods F k ((ms.map prMethod).flatten ++ .p .rc :: r) = some (ms, r)
   | [], _, r, k, hk => by
     obtain ⟨k', rfl⟩ : ∃ k', k = k' + 1 := ⟨k - 1, by simp at hk; omega⟩
@@ -218,8 +236,8 @@ theorem flatten_length_ge (ms : List JFunc) : ms.length ≤ ((ms.map prMethod).f
 
 /-- what a top-level item needs to be read back -/
 def ReadOKT (F : Nat) : JTop → Prop
-  | .func f => ReadOKF f ∧ f.body.length + 2 ≤ F
-  | .cls _ _ ms => ∀ m ∈ ms, ReadOKF m ∧ m.body.length + 2 ≤ F
+  | .func f => ReadOKF f ∧ ssW f.body + 2 ≤ F
+  | .cls _ _ ms => ∀ m ∈ ms, ReadOKF m ∧ ssW m.body + 2 ≤ F
 
 theorem any_hasWith_false (ms : List JFunc) (h : ∀ m ∈ ms, ReadOKF m) : (ms.any fun m => JS.hasWithL m.body) = false := by
   rw [List.any_eq_false]
@@ -234,7 +252,7 @@ theorem jTops_prog (F : Nat) : ∀ (tops : List JTop), (∀ t ∈ tops, ReadOKT 
     simp [prProg, jTops]
   | .func f :: tops, h, k, hk => by
     obtain ⟨k', rfl⟩ : ∃ k', k = k' + 1 := ⟨k - 1, by simp at hk; omega⟩
-    obtain ⟨h1, h2⟩ : ReadOKF f ∧ f.body.length + 2 ≤ F := h (.func f) (by simp)
+    obtain ⟨h1, h2⟩ : ReadOKF f ∧ ssW f.body + 2 ≤ F := h (.func f) (by simp)
     have e1 := jMethod_prMethod f h1 (prProg tops) F h2
     have e2 := jTops_prog F tops (fun g hg => h g (by simp [hg])) k' (by simp at hk; omega)
     have : prProg (.func f :: tops) = .id "function".toList :: (prMethod f ++ prProg tops) := by simp [prProg, prTop]
@@ -242,7 +260,7 @@ theorem jTops_prog (F : Nat) : ∀ (tops : List JTop), (∀ t ∈ tops, ReadOKT 
     simp only [jTops, if_true, e1, e2, Option.map_some]
   | .cls n b ms :: tops, h, k, hk => by
     obtain ⟨k', rfl⟩ : ∃ k', k = k' + 1 := ⟨k - 1, by simp at hk; omega⟩
-    have hm : ∀ m ∈ ms, ReadOKF m ∧ m.body.length + 2 ≤ F := h (.cls n b ms) (by simp)
+    have hm : ∀ m ∈ ms, ReadOKF m ∧ ssW m.body + 2 ≤ F := h (.cls n b ms) (by simp)
     have hlen := flatten_length_ge ms
     have e1 := jMethods_pr F ms hm (prProg tops) (((ms.map prMethod).flatten ++ .p .rc :: prProg tops).length + 1)
       (by simp only [List.length_append, List.length_cons]; omega)
@@ -262,7 +280,7 @@ def ReadOKT0 : JTop → Prop
   | .func f => ReadOKF f
   | .cls _ _ ms => ∀ m ∈ ms, ReadOKF m
 
-theorem prMethod_body_len (m : JFunc) (h : ReadOKF m) : m.body.length + 1 ≤ (prMethod m).length := by
+theorem prMethod_body_len (m : JFunc) (h : ReadOKF m) : ssW m.body + 1 ≤ (prMethod m).length := by
   have := prBody_length m.body h.body
   simp only [prMethod, List.length_cons, List.length_append, List.length_nil]; omega
 
@@ -414,7 +432,7 @@ theorem jsMethod_relF (hs : List Spec.Name) (hret : hs.contains (S "return") = f
   obtain ⟨⟨⟨hname, _⟩, _⟩, hbody⟩ := hok
   obtain ⟨ns, p, q, hst, hemb⟩ := hr.stmts
   have hnew' : ¬ (h.name = "new".toList ∧ (!true) = true) := fun e => by simp at e
-  have hb := jsStmts_emb hs hret h.body hbody ns hemb 2
+  have hb := js_trees hs hret h.body hbody ns hemb 2
   have hj := jsParams_rel f _ hr.params true
   have hfil : ("me".toList :: h.params).filter (· ≠ "me".toList) = h.params.filter (· ≠ "me".toList) := by simp
   simp only [if_true, hfil] at hj
@@ -442,7 +460,7 @@ theorem txFunc_factory (name : Spec.Name) :
     txFunc (factoryFunc name) =
       S "function " ++ name ++ S "(methodName, ...args) {\n" ++ indentOf 1 ++ S "return factoryCall('" ++ name ++
         S "', methodName, args);\n" ++ S "}\n" := by
-  simp [txFunc, factoryFunc, txFuncBody, varCount, txBody, txS, txJ, txArgs, jid, jcall, JE.needsParen, S, List.append_assoc]
+  simp [txFunc, factoryFunc, txFuncBody, varCount, txBody, txT, txS, txJ, txArgs, jid, jcall, JE.needsParen, S, List.append_assoc]
 
 structure ScriptRelF (s : Spec.Script) (t : Lscr.Script) : Prop where
   fac : t.factoryName = s.factory
